@@ -31,6 +31,7 @@ class Alphabet:
         self.adts = adts or {}
         self.bools = set(bools or [])
         self.retval = retval
+        self.drop_types = []  # [(substring of the dropped place's type, label)] -> event drop:<label> at Drop terminators
         self.adt_fn = None  # optional: adt def path -> short name (for ADTs recognised by shape, e.g. select!'s private enum)
         self.fut_types = fut_types or []  # [(substring of the awaited future's type, label)] for awaits of non-call values
         self.type_tags = type_tags or []  # [(substring of the scrutinee type, tag)] used when no producing call is known
@@ -155,7 +156,13 @@ def build(body: Body, alpha: Alphabet):
             if t["drop"] is not None:
                 n.add(cur, "cancel", CANCEL, loc)
         elif k == "drop":
-            n.add(cur, None, tgt(t["target"]), loc)
+            dl = None
+            if len(t["p"]) == 1 and alpha.drop_types and t["p"][0] not in body.must_moved_at_term().get(bi, set()):
+                for sub, lab in alpha.drop_types:
+                    if sub in t.get("ty", ""):
+                        dl = "drop:" + lab
+                        break
+            n.add(cur, dl, tgt(t["target"]), loc)
             if t["unwind"] is not None:
                 n.add(cur, "unwind", UNWIND, loc)
         elif k == "goto":
